@@ -101,7 +101,7 @@ PathEq(a, b) ==
     Tag("layer", BEq(a.l, b.l)) \cup Tag("datatype", BEq(a.t, b.t)) \cup Tag("repetition", RepEq(a.rep, b.rep))
     \cup Tag("properties", PropsEq(a.props, b.props)) \cup Tag("half_width", a.hw = b.hw)
     \cup Tag("end_extensions", <<a.es, a.ee>> = <<b.es, b.ee>>)
-    \cup Tag("spine", SimplifyOpen(a.pts) = SimplifyOpen(b.pts))
+    \cup Tag("spine", PathRefines(a.pts, SimplifyOpen(b.pts)))
 RefEq(a, b) ==
     Tag("cell_name", a.cell = b.cell) \cup Tag("reflection", a.refl = b.refl)
     \cup Tag("magnification", FileMag(a.mag) = FileMag(b.mag))
